@@ -1,137 +1,183 @@
 (* C20 -- track sample queues never duplicate, reorder, corrupt or leak samples.
-   Statements only; every proof is `exact <lemma of Proofs/SpscProofs.v>`.
+   Statements only; every proof is `exact <lemma of Proofs/Spsc*.v>`.
 
    Model: Model/Spsc.v -- threads take single shared-memory steps (one atomic load / store / fetch,
    one slot write / read, one lock or notify call) of SpscRing::{push,pop,is_empty}, Drop for
-   SpscRing and of SampleStreamSource::{try_send, send, send_many, clone, drop},
-   SampleStreamTrack::{recv, stop}; `run s0 sched` executes an arbitrary schedule (list of thread
-   ids, any length); thread 0 = consumer, 1 = a thread calling stop(), 2 = the producer.
-   Programs may mix the track operations, the pipeline-queue operations (ORecvQ, ODropTx; send and
-   try_send are the same protocol), send_many and cancelled recv() calls (ORecvC / ORecvQC).
-   cfg_ok: 1 <= capacity < word modulus, (capacity | modulus) \/ fewer samples than the modulus,
-   and the bare-ring pop is not mixed with the drop-oldest send. *)
+   SpscRing, of SampleStreamSource::{try_send, send, send_many, clone, drop},
+   SampleStreamTrack::{recv, stop} and of the pipeline queue SampleQueueSender::{send, try_send,
+   drop}, SampleQueueReceiver::recv; a recv() future may be dropped at its await (ORecvC / ORecvQC).
+   `run s0 sched` executes an arbitrary schedule (list of thread ids, any length); thread 0 =
+   consumer, 1 = a thread calling stop(), 2+k = producer thread k (each owns a source handle; the
+   producers are serialised by push_lock, fixes 19ac498 / 1094a59).
+   cfgN_ok: 1 <= capacity < word modulus; (capacity | modulus) \/ fewer samples than the modulus;
+   at least one producer thread; the bare-ring pop is not mixed with the drop-oldest send; the
+   bare-ring push (no lock at all) is used by at most one thread.
+   All theorems: every capacity, ANY number n >= 1 of producer threads, every schedule. *)
 From Coq Require Import ZArith List Bool.
-From RV Require Import Model.SpscSkel Model.Spsc Gen.SpscProg Proofs.SpscProofs Proofs.SpscClose.
+From RV Require Import Model.SpscSkel Model.Spsc Gen.SpscProg Proofs.SpscProofs Proofs.SpscN Proofs.SpscClose.
 Import ListNotations.
 Open Scope Z_scope.
 
-(* ---- tie to the source: the regenerated skeletons are the ones the model mirrors, and they obey
-   the acquire/release publication discipline *)
+(* ---- tie to the source: the regenerated skeletons (spsc.rs, track.rs, pipeline.rs) are the ones the
+   model mirrors, and they obey the acquire/release publication discipline *)
 Theorem C20_skeleton_tie : skeleton_matches = true.
 Proof. exact skeleton_tie. Qed.
 
 Theorem C20_publication_ok : publication_ok push_skel pop_skel = true.
 Proof. exact publication_holds. Qed.
 
-(* ---- one producer thread, one consumer thread, any capacity, every interleaving *)
-Theorem C20_spsc_no_ub : forall capacity w cprog nstop pprog sched,
-  cfg_ok capacity w cprog pprog ->
-  ub (shd (run (init capacity w cprog nstop [pprog]) sched)) = None.
-Proof. exact spsc_no_ub. Qed.
+(* ---- no data race / memory error *)
+Theorem C20_no_ub : forall capacity w cprog nstop pprogs sched,
+  cfgN_ok capacity w cprog pprogs ->
+  ub (shd (run (init capacity w cprog nstop pprogs) sched)) = None.
+Proof. exact nprod_no_ub. Qed.
 
-Theorem C20_spsc_ring_invariant : forall capacity w cprog nstop pprog sched,
-  cfg_ok capacity w cprog pprog ->
-  let s := run (init capacity w cprog nstop [pprog]) sched in
-  exists p, prods s = [p] /\ RingInv (shd s) (wph_p p) (rph_cp (cons s) p).
-Proof. exact spsc_ring_inv. Qed.
+(* at most one producer is inside the ring, and the ring invariant holds with its phase *)
+Theorem C20_ring_invariant : forall capacity w cprog nstop pprogs sched,
+  cfgN_ok capacity w cprog pprogs ->
+  let s := run (init capacity w cprog nstop pprogs) sched in
+  exists f pf, nth_error (prods s) f = Some pf /\ RingInv (shd s) (wph_p pf) (rph_cp (cons s) pf) /\
+               forall k q, k <> f -> nth_error (prods s) k = Some q -> p_active q = false.
+Proof. exact nprod_ring_inv. Qed.
 
-Theorem C20_spsc_slots_initialised : forall capacity w cprog nstop pprog sched,
-  cfg_ok capacity w cprog pprog ->
-  let s := run (init capacity w cprog nstop [pprog]) sched in
+Theorem C20_slots_initialised : forall capacity w cprog nstop pprogs sched,
+  cfgN_ok capacity w cprog pprogs ->
+  let s := run (init capacity w cprog nstop pprogs) sched in
   quiescent s = true -> forall i, 0 <= i < cap (shd s) ->
     (slots (shd s) i <> None <-> exists k, head (shd s) <= k < tail (shd s) /\ k mod cap (shd s) = i) /\
     (forall k, head (shd s) <= k < tail (shd s) -> slots (shd s) (k mod cap (shd s)) = nthZ (pushed (shd s)) k).
-Proof. exact spsc_slots_iff. Qed.
+Proof. exact nprod_slots_iff. Qed.
 
-Theorem C20_spsc_taken_is_prefix_of_pushed : forall capacity w cprog nstop pprog sched,
-  cfg_ok capacity w cprog pprog ->
-  let s := run (init capacity w cprog nstop [pprog]) sched in
+(* ---- no duplicate, no reorder, no corruption *)
+Theorem C20_taken_is_prefix_of_pushed : forall capacity w cprog nstop pprogs sched,
+  cfgN_ok capacity w cprog pprogs ->
+  let s := run (init capacity w cprog nstop pprogs) sched in
   exists n, map snd (taken (shd s)) = firstn n (pushed (shd s)).
-Proof. exact spsc_taken_prefix. Qed.
+Proof. exact nprod_taken_prefix. Qed.
 
-Theorem C20_ring_popped_is_prefix_of_pushed : forall capacity w cprog nstop pprog sched,
-  cfg_ok capacity w cprog pprog ->
-  let s := run (init capacity w cprog nstop [pprog]) sched in
-  existsb is_osend pprog = false -> received s = firstn (length (received s)) (pushed (shd s)).
-Proof. exact spsc_received_prefix. Qed.
+Theorem C20_ring_popped_is_prefix_of_pushed : forall capacity w cprog nstop pprogs sched,
+  cfgN_ok capacity w cprog pprogs ->
+  let s := run (init capacity w cprog nstop pprogs) sched in
+  forallb no_send pprogs = true -> received s = firstn (length (received s)) (pushed (shd s)).
+Proof. exact nprod_received_prefix. Qed.
 
-Theorem C20_received_subsequence_of_sent : forall capacity w cprog nstop pprog sched,
-  cfg_ok capacity w cprog pprog ->
-  Subseq (received (run (init capacity w cprog nstop [pprog]) sched)) (op_vals pprog).
-Proof. exact spsc_received_sent. Qed.
+Theorem C20_received_subsequence_of_pushed : forall capacity w cprog nstop pprogs sched,
+  cfgN_ok capacity w cprog pprogs ->
+  let s := run (init capacity w cprog nstop pprogs) sched in
+  Subseq (received s) (pushed (shd s)).
+Proof. exact nprod_received_pushed. Qed.
 
-Theorem C20_received_no_duplicates : forall capacity w cprog nstop pprog sched,
-  cfg_ok capacity w cprog pprog -> NoDup (op_vals pprog) ->
-  NoDup (received (run (init capacity w cprog nstop [pprog]) sched)).
-Proof. exact spsc_received_nodup. Qed.
+(* the global push order interleaves the producers' own orders; each producer pushed a subsequence of
+   what its program sends *)
+Theorem C20_pushed_is_merge : forall capacity w cprog nstop pprogs sched,
+  cfgN_ok capacity w cprog pprogs ->
+  let s := run (init capacity w cprog nstop pprogs) sched in
+  Merge (map p_pushed (prods s)) (pushed (shd s)).
+Proof. exact nprod_pushed_merge. Qed.
 
-Theorem C20_full_only_when_full : forall capacity w cprog nstop pprog sched,
-  cfg_ok capacity w cprog pprog ->
-  let s := run (init capacity w cprog nstop [pprog]) sched in
-  forall p c, prods s = [p] -> p_pc p = PPush c PuLoadHead ->
+Theorem C20_producer_pushed_subsequence_of_sent : forall capacity w cprog nstop pprogs sched,
+  cfgN_ok capacity w cprog pprogs ->
+  let s := run (init capacity w cprog nstop pprogs) sched in
+  forall k pk prog, nth_error (prods s) k = Some pk -> nth_error pprogs k = Some prog ->
+    Subseq (p_pushed pk) (op_vals prog).
+Proof. exact nprod_pushed_sent. Qed.
+
+(* samples from one producer are received in the order that producer sent them, none twice *)
+Theorem C20_per_producer_order : forall capacity w cprog nstop pprogs sched,
+  cfgN_ok capacity w cprog pprogs ->
+  let s := run (init capacity w cprog nstop pprogs) sched in
+  forall k prog,
+    (forall i j pi pj v, i <> j -> nth_error pprogs i = Some pi -> nth_error pprogs j = Some pj ->
+                         In v (op_vals pi) -> In v (op_vals pj) -> False) ->
+    nth_error pprogs k = Some prog ->
+    Subseq (filter (fun v => memZ v (op_vals prog)) (received s)) (op_vals prog).
+Proof. exact nprod_per_producer_order. Qed.
+
+Theorem C20_received_was_sent : forall capacity w cprog nstop pprogs sched,
+  cfgN_ok capacity w cprog pprogs ->
+  let s := run (init capacity w cprog nstop pprogs) sched in
+  forall v, In v (received s) -> exists k prog, nth_error pprogs k = Some prog /\ In v (op_vals prog).
+Proof. exact nprod_received_was_sent. Qed.
+
+(* ---- linearisation points of the full / empty answers *)
+Theorem C20_full_only_when_full : forall capacity w cprog nstop pprogs sched,
+  cfgN_ok capacity w cprog pprogs ->
+  let s := run (init capacity w cprog nstop pprogs) sched in
+  forall k p c, nth_error (prods s) k = Some p -> p_pc p = PPush c PuLoadHead ->
     is_full (shd s) (p_rt p) (head (shd s)) = true -> tail (shd s) - head (shd s) = cap (shd s).
-Proof. exact spsc_full_only_when_full. Qed.
+Proof. exact nprod_full_only_when_full. Qed.
 
-Theorem C20_none_only_when_empty : forall capacity w cprog nstop pprog sched,
-  cfg_ok capacity w cprog pprog ->
-  let s := run (init capacity w cprog nstop [pprog]) sched in
-  forall m, c_pc (cons s) = m -> (m = CPopRaw PoLoadTail \/ m = CRvPop PoLoadTail) ->
+Theorem C20_none_only_when_empty : forall capacity w cprog nstop pprogs sched,
+  cfgN_ok capacity w cprog pprogs ->
+  let s := run (init capacity w cprog nstop pprogs) sched in
+  forall m, c_pc (cons s) = m -> (m = CPopRaw PoLoadTail \/ m = CRvPop PoLoadTail \/ m = CQPop PoLoadTail) ->
     is_mt (shd s) (c_rh (cons s)) (tail (shd s)) = true -> head (shd s) = tail (shd s).
-Proof. exact spsc_none_only_when_empty. Qed.
+Proof. exact nprod_none_only_when_empty. Qed.
 
-Theorem C20_drop_balance : forall capacity w cprog nstop pprog sched,
-  cfg_ok capacity w cprog pprog ->
-  let s := run (init capacity w cprog nstop [pprog]) sched in
+(* ---- no leak, no double drop *)
+Theorem C20_drop_balance : forall capacity w cprog nstop pprogs sched,
+  cfgN_ok capacity w cprog pprogs ->
+  let s := run (init capacity w cprog nstop pprogs) sched in
   quiescent s = true ->
   exists h' d, ring_drop (shd s) = (h', d) /\ ub h' = None /\
                (forall i, 0 <= i < cap (shd s) -> slots h' i = None) /\
                pushed (shd s) = map snd (taken (shd s)) ++ d.
-Proof. exact spsc_drop_balance. Qed.
+Proof. exact nprod_drop_balance. Qed.
 
-(* ---- close, end-of-stream, wake-ups (recv() as fixed by 1e3221d / 72fa4b8) *)
-(* end-of-stream is answered only after stop(), or after the last source handle is gone and
-   everything that entered the ring has left it, in order (delivered, or discarded as oldest) *)
-Theorem C20_eos_only_when_closed_and_drained : forall capacity w cprog nstop pprog sched,
-  cfg_ok capacity w cprog pprog ->
-  let s := run (init capacity w cprog nstop [pprog]) sched in
+(* ---- close, end-of-stream, wake-ups (track recv as fixed by 1e3221d / 72fa4b8, pipeline recv as
+   fixed by dc21402) *)
+Theorem C20_eos_only_when_closed_and_drained : forall capacity w cprog nstop pprogs sched,
+  cfgN_ok capacity w cprog pprogs ->
+  let s := run (init capacity w cprog nstop pprogs) sched in
   In REos (c_rets (cons s)) ->
   stopped (shd s) = true \/
   (closed (shd s) = true /\ head (shd s) = tail (shd s) /\ map snd (taken (shd s)) = pushed (shd s)).
-Proof. exact spsc_eos_sound. Qed.
+Proof. exact nprod_eos_sound. Qed.
 
-Theorem C20_closed_is_final : forall capacity w cprog nstop pprog sched,
-  cfg_ok capacity w cprog pprog ->
-  let s := run (init capacity w cprog nstop [pprog]) sched in
-  closed (shd s) = true -> exists p, prods s = [p] /\ p_handles p = 0 /\ p_quiet p = true.
-Proof. exact spsc_closed_is_final. Qed.
+Theorem C20_closed_is_final : forall capacity w cprog nstop pprogs sched,
+  cfgN_ok capacity w cprog pprogs ->
+  let s := run (init capacity w cprog nstop pprogs) sched in
+  closed (shd s) = true -> Forall (fun p => p_handles p = 0 /\ p_quiet p = true) (prods s).
+Proof. exact nprod_closed_is_final. Qed.
 
-(* a registered, not yet woken consumer (track recv or pipeline recv) always has the
-   notify_waiters() of a close ahead; for the track also that of a stop() *)
-Theorem C20_no_lost_wakeup : forall capacity w cprog nstop pprog sched,
-  cfg_ok capacity w cprog pprog ->
-  let s := run (init capacity w cprog nstop [pprog]) sched in
+Theorem C20_no_lost_wakeup : forall capacity w cprog nstop pprogs sched,
+  cfgN_ok capacity w cprog pprogs ->
+  let s := run (init capacity w cprog nstop pprogs) sched in
   c_is_waiting (cons s) = true -> woken (shd s) = false ->
-  (closed (shd s) = true -> exists p, prods s = [p] /\ p_pc p = PDropNotify) /\
+  (closed (shd s) = true -> exists k p, nth_error (prods s) k = Some p /\ p_pc p = PDropNotify) /\
   (c_pc (cons s) = CRvWaiting -> stopped (shd s) = true -> s_pc (stp s) = SNotify).
-Proof. exact spsc_no_lost_wakeup. Qed.
+Proof. exact nprod_no_lost_wakeup. Qed.
 
-Theorem C20_consumer_enabled_after_close : forall capacity w cprog nstop pprog sched,
-  cfg_ok capacity w cprog pprog ->
-  let s := run (init capacity w cprog nstop [pprog]) sched in
-  forall p, closed (shd s) = true -> prods s = [p] -> p_pc p = PIdle ->
+Theorem C20_consumer_enabled_after_close : forall capacity w cprog nstop pprogs sched,
+  cfgN_ok capacity w cprog pprogs ->
+  let s := run (init capacity w cprog nstop pprogs) sched in
+  closed (shd s) = true -> Forall (fun p => p_pc p = PIdle) (prods s) ->
   (c_pc (cons s) <> CIdle \/ c_prog (cons s) <> []) -> step s 0 <> None.
-Proof. exact spsc_consumer_enabled_after_close. Qed.
+Proof. exact nprod_consumer_enabled_after_close. Qed.
 
-(* after close (producer thread done) a running consumer finishes its recv()/pop() within 20 of
-   its own steps: drains what remains (C20_received_subsequence_of_sent gives the order), then
-   end-of-stream (C20_eos_only_when_closed_and_drained says only then) *)
-Theorem C20_recv_terminates_after_close : forall capacity w cprog nstop pprog sched p,
-  cfg_ok capacity w cprog pprog ->
-  let s := run (init capacity w cprog nstop [pprog]) sched in
-  closed (shd s) = true -> prods s = [p] -> p_pc p = PIdle ->
+(* after close (all producer threads done) a running consumer finishes its recv()/pop() within 20 of
+   its own steps: drains what remains, then end-of-stream *)
+Theorem C20_recv_terminates_after_close : forall capacity w cprog nstop pprogs sched,
+  cfgN_ok capacity w cprog pprogs ->
+  let s := run (init capacity w cprog nstop pprogs) sched in
+  closed (shd s) = true -> Forall (fun p => p_pc p = PIdle) (prods s) ->
   exists k, (k <= 20)%nat /\ c_pc (cons (run s (repeat 0%nat k))) = CIdle.
-Proof. exact spsc_recv_terminates_after_close_20. Qed.
+Proof. exact nprod_recv_terminates_after_close_20. Qed.
 
-(* ---- the divisibility / bound hypothesis of cfg_ok cannot be dropped (toy 2-bit word) *)
+(* a recv() future dropped at its await takes nothing out of the queue, holds no lock and hands an
+   already received notify_one on as the permit (all theorems above hold for programs with such
+   cancelled calls: they are ordinary operations of the consumer program) *)
+Theorem C20_cancelled_recv_is_clean : forall capacity w cprog nstop pprogs sched,
+  let s := run (init capacity w cprog nstop pprogs) sched in
+  c_is_waiting (cons s) = true -> c_can (cons s) = true ->
+  exists s', step s 0 = Some s' /\
+    c_pc (cons s') = CIdle /\ c_rets (cons s') = c_rets (cons s) ++ [RCancelled] /\
+    head (shd s') = head (shd s) /\ tail (shd s') = tail (shd s) /\ slots (shd s') = slots (shd s) /\
+    taken (shd s') = taken (shd s) /\ lock (shd s') = lock (shd s) /\
+    waiting (shd s') = false /\ woken (shd s') = false /\
+    permit (shd s') = permit (shd s) || (woken (shd s) && wone (shd s)).
+Proof. exact nprod_cancel_is_clean. Qed.
+
+(* ---- the divisibility / bound hypothesis of cfgN_ok cannot be dropped (toy 2-bit word) *)
 Theorem C20_index_wrap_refuted : ub (shd (run_ops wrap_cfg [2;2;2;0;0;2;2]%nat)) = Some UbOverwrite.
 Proof. exact wrap_nondivisible_witness. Qed.
